@@ -30,6 +30,9 @@ from vt import apirel, env as venv, kernels, popgen
 from vt.report import Report
 
 
+STATEMENT_POINTERS = ["p_id_ehepartner", "p_id_einstandspartner", "p_id_elternteil_1", "p_id_elternteil_2"]
+
+
 def kernel_part(rep):
     lost = []
     try:
@@ -52,8 +55,12 @@ def check_function_contracts(rep):
     recorded term is chosen by a mode; obligation: the function returns normally exactly in the
     mode in which every documented condition holds, and it asks exactly the documented terms."""
     from _gettsim import interface
-    from _gettsim.config import FOREIGN_KEYS, SUPPORTED_GROUPINGS
+    from _gettsim.config import FOREIGN_KEYS as _FK, SUPPORTED_GROUPINGS
     from vt.absnp import S, Elements
+
+    # the pointer columns named in the property statement (spouse, partner, parents) are required
+    # whatever the package's own list says; anything else on that list is checked as well
+    FOREIGN_KEYS = [*STATEMENT_POINTERS, *[k for k in _FK if k not in STATEMENT_POINTERS]]
 
     out = []
 
@@ -147,6 +154,22 @@ def conversion_part(rep):
                     bad.append(f"float {s.tolist()} -> int: expected a lossless conversion, got {err or out.tolist()}")
             elif err != "ValueError":
                 bad.append(f"float column {s.tolist()} converted to int {None if out is None else out.tolist()} instead of ValueError (value changed)")
+    # values a hair below / above an integer: not convertible without changing the value
+    for m in (3, 1964, 200000, 2**40):
+        for v in (float(numpy.nextafter(float(m), 0.0)), float(numpy.nextafter(float(m), numpy.inf)), m * (1 - 2e-13), m * (1 + 2e-13)):
+            if v == float(m):
+                continue
+            s = pd.Series([float(m), v, 3.0])
+            out, err = attempt(s, int)
+            n += 1
+            if err != "ValueError":
+                bad.append(f"float column {[repr(x) for x in s.tolist()]} converted to int {None if out is None else out.tolist()} instead of ValueError ({v!r} is not an integer; truncation or rounding changes it)")
+    for frac in (0.5, 0.01, float("nan"), 1e-12, 1 - 1e-12):
+        s = pd.Series([0.0, frac, 1.0])
+        out, err = attempt(s, bool)
+        n += 1
+        if err != "ValueError":
+            bad.append(f"float column {s.tolist()} converted to bool {None if out is None else out.tolist()} instead of ValueError")
     for vals, ty, ok in (([0, 1, 1], bool, True), ([0, 2, 1], bool, False), ([0.0, 1.0], bool, True), ([0.0, 0.5], bool, False), ([True, False], float, False), ([1, 2, 3], float, True),
                          (["a", "b"], int, False), (["1", "2"], float, False), ([1.0, 2.0], float, True), ([True, False], int, True)):
         s = pd.Series(vals)
@@ -164,8 +187,9 @@ def conversion_part(rep):
 
 def faults(pop, env, rng_seed=0):
     """[(description, mutated data)] -- every fault class at every eligible row / column"""
-    from _gettsim.config import FOREIGN_KEYS
+    from _gettsim.config import FOREIGN_KEYS as _FK
 
+    FOREIGN_KEYS = [k for k in [*STATEMENT_POINTERS, *[k for k in _FK if k not in STATEMENT_POINTERS]] if k in pop.columns]
     out = []
     n = len(pop)
     out.append(("p_id column missing", pop.drop(columns=["p_id"])))
